@@ -4,7 +4,7 @@ P=$1; shift
 git -C /repo apply "$P" || { echo "patch does not apply"; exit 2; }
 for c in "$@"; do
   echo "== $c"
-  (cd /verif && VERIF_DEV_NOPROOF=${NOPROOF:-} timeout 900 python3 tools/check.py $c --tier quick 2>&1 | tail -4 | cut -c1-300)
+  (cd /verif && VERIF_DEV_NOPROOF=${NOPROOF:-} VERIF_DEV_NOBUILD=${NOBUILD:-} timeout 900 python3 tools/check.py $c --tier quick 2>&1 | tail -4 | cut -c1-300)
 done
 git -C /repo checkout -- .
 git -C /repo status --short | grep -v sipproxy
